@@ -572,6 +572,7 @@ rfbCloseClient(rfbClientPtr cl)
 	if (cl->sslctx)
 	    rfbssl_destroy(cl);
 	free(cl->wspath);
+	cl->wspath = NULL;
 #endif
       }
     TSIGNAL(cl->updateCond);
